@@ -20,6 +20,7 @@ macro_rules! dispatch {
             "limits" => $f::<engines::limits::Limits>($($args),*),
             "reject" => $f::<engines::reject::Reject>($($args),*),
             "bitshare" => $f::<engines::bitshare::Bitshare>($($args),*),
+            "clones" => $f::<engines::clones::Clones>($($args),*),
             other => {
                 eprintln!("unknown engine {}", other);
                 std::process::exit(2);
@@ -28,7 +29,7 @@ macro_rules! dispatch {
     };
 }
 
-const ENGINES: &[&str] = &["drive", "reverse", "limits", "reject", "bitshare"];
+const ENGINES: &[&str] = &["drive", "reverse", "limits", "reject", "bitshare", "clones"];
 
 fn info_of<E: Engine>() -> EngineInfo {
     EngineInfo { name: E::NAME, prop: E::PROP, rule: E::RULE, real: E::REAL, stub: E::STUB }
@@ -45,6 +46,7 @@ fn plan_for(prop: &str, tier: Tier) -> Vec<(&'static str, u64)> {
         "C15" => vec![("drive", if q { 200_000 } else { 10_000_000 })],
         "C10" => vec![("reject", if q { 60_000 } else { 60_000 })],
         "C04" => vec![("bitshare", if q { 400_000 } else { 40_000_000 })],
+        "C03" => vec![("clones", if q { 30_000 } else { 3_000_000 })],
         "C14" => vec![("limits", if q { 20_000 } else { 400_000 })],
         "C02" => vec![("reverse", if q { 40_000 } else { 4_000_000 })],
         _ => vec![],
